@@ -23,6 +23,15 @@ func init() {
 			Calls: []string{"RateLimitWait", "handleRunHook", "combineBindingContextForHook"}},
 		skelTarget{Name: "Hook.RateLimitWait", File: "pkg/hook/hook.go", Recv: "Hook", Func: "RateLimitWait",
 			Calls: []string{"Wait", "WaitN", "Allow", "Reserve"}},
+		// fourth wave: one token pays for ONE process start — the chain below the wait: handleRunHook calls
+		// Hook.Run once, Hook.Run builds one executor and calls RunAndLogLines once, RunAndLogLines starts
+		// the command once (no loop, no second call on any branch)
+		skelTarget{Name: "C18.handleRunHook", File: "pkg/shell-operator/operator.go", Recv: "ShellOperator", Func: "handleRunHook",
+			Calls: []string{"Run", "RunHook", "RateLimitWait", "handleRunHook"}},
+		skelTarget{Name: "C18.Hook.Run", File: "pkg/hook/hook.go", Recv: "Hook", Func: "Run",
+			Calls: []string{"NewExecutor", "RunAndLogLines", "Run", "Start", "Output", "CombinedOutput", "RateLimitWait", "newHookCmd"}},
+		skelTarget{Name: "C18.Executor.RunAndLogLines", File: "pkg/executor/executor.go", Recv: "Executor", Func: "RunAndLogLines",
+			Calls: []string{"Run", "Start", "Output", "CombinedOutput", "RunAndLogLines"}},
 	)
 }
 
